@@ -170,6 +170,7 @@ type Exec struct {
 	hb         map[string][]uint32 // harness HB keys
 	chans      map[unsafe.Pointer]*chanState
 	conds      map[uint32][]*thread // waiters per condition variable
+	locPool    []locState           // slab of shadow states (monitor.go)
 	det        bool                 // deterministic tail: no further choice points are recorded
 	fp         uint64               // running fingerprint of the Mazurkiewicz trace (xor of event hashes)
 	divergence string
@@ -213,7 +214,8 @@ func Run(opts Options, prefix []int32, body func()) *Exec {
 		e.Races = map[Race]bool{}
 	}
 	if opts.Monitor || opts.AccessPoints {
-		e.locs = map[unsafe.Pointer]*locState{}
+		e.locs = make(map[unsafe.Pointer]*locState, locsHint)
+		e.locPool = make([]locState, locsHint+16)
 	}
 	e.Sites = opts.Sites
 	cur = e
@@ -224,8 +226,13 @@ func Run(opts Options, prefix []int32, body func()) *Exec {
 	t0.wake <- struct{}{}
 	e.coordinate()
 	cur = nil
+	if e.locs != nil {
+		locsHint = len(e.locs) // executions of one scenario touch about the same number of locations
+	}
 	return e
 }
+
+var locsHint int
 
 func (e *Exec) newThread(parent *thread, f func()) *thread {
 	t := &thread{idx: len(e.threads), wake: make(chan struct{}, 1), exited: make(chan struct{})}
